@@ -16,32 +16,39 @@ open Rough.Stats
 
 /-- what is observable of the generated call's result -/
 def obsGen (x : Gen.Responder × Gen.Sock × List Event) :
-    Version × Gen.OnlineKey × Bytes × List (Bytes × Nat) × Gen.MerkleTree × List Grease × List (Option Sent) × Nat × List Event :=
-  (x.1.version, x.1.online_key, x.1.cert_bytes, x.1.requests, x.1.merkle, x.1.grease.pending, x.2.1.out, x.2.1.n, x.2.2)
+    Version × Gen.OnlineKey × Bytes × List (Bytes × Nat) × Gen.MerkleTree × List Grease × List (Option Sent) × Nat ×
+      List (Bytes × Addr) × List Event :=
+  (x.1.version, x.1.online_key, x.1.cert_bytes, x.1.requests, x.1.merkle, x.1.grease.pending, x.2.1.out, x.2.1.n, x.2.1.inq, x.2.2)
 
-/-- the same observables computed from the model's result -/
-def obsModel (n : Nat) (gs : List Grease) (ev0 : List Event) (y : Responder × List (Option Sent) × List Event) :
-    Version × Gen.OnlineKey × Bytes × List (Bytes × Nat) × Gen.MerkleTree × List Grease × List (Option Sent) × Nat × List Event :=
-  (y.1.ver, ⟨y.1.onl, Version.supportedWire⟩, y.1.cert, y.1.requests, toGenTree y.1.ver y.1.tree, gs.drop n, y.2.1, n, ev0 ++ y.2.2)
+/-- the same observables computed from the model's result (`sock` is the socket before the call) -/
+def obsModel (sock : Gen.Sock) (n : Nat) (gs : List Grease) (ev0 : List Event) (y : Responder × List (Option Sent) × List Event) :
+    Version × Gen.OnlineKey × Bytes × List (Bytes × Nat) × Gen.MerkleTree × List Grease × List (Option Sent) × Nat ×
+      List (Bytes × Addr) × List Event :=
+  (y.1.ver, ⟨y.1.onl, Version.supportedWire⟩, y.1.cert, y.1.requests, toGenTree y.1.ver y.1.tree, gs.drop n, sock.out ++ y.2.1,
+   sock.n + n, sock.inq, ev0 ++ y.2.2)
 
-theorem send_responses_sim (E : Env) (hH : ∀ x, (E.H x).length = 64) (r : Responder) (gs : List Grease) (cur : Grease)
-    (ok : Addr → Nat → Bool) (LOG : Nat) (now : Rs.Time) (ev0 : List Event) :
-    (Gen.Responder.send_responses E.S E.H LOG (toGenResponder r ⟨gs, cur⟩) ⟨ok, 0, []⟩ ev0 now).map obsGen
-      ≃ᵣ (Responder.sendResponsesF ok E r (decide (LOG ≥ 4)) (now.secs, now.nanos) gs).map
-            (obsModel r.requests.length gs ev0) := by
+/-- exact form of `send_responses_sim`: the whole state after the call (responder with its fault-injection queue,
+    socket, statistics) -/
+theorem send_responses_exact (E : Env) (hH : ∀ x, (E.H x).length = 64) (r : Responder) (gs : List Grease) (cur : Grease)
+    (sock : Gen.Sock) (LOG : Nat) (ev0 : List Event) :
+    Gen.Responder.send_responses E.S E.H LOG (toGenResponder r ⟨gs, cur⟩) sock ev0
+      ≃ᵣ (Responder.sendResponsesF (fun a k => sock.ok a (sock.n + k)) E r (decide (LOG ≥ 4))
+            ((sock.clock sock.n).secs, (sock.clock sock.n).nanos) gs).map
+          (fun y => (toGenResponder y.1 ⟨gs.drop r.requests.length, curAfter gs cur r.requests.length⟩,
+            ({ sock with n := sock.n + r.requests.length, out := sock.out ++ y.2.1 } : Gen.Sock), ev0 ++ y.2.2)) := by
   unfold Gen.Responder.send_responses Responder.sendResponsesF
   simp only [Res.pure_eq, Res.bind_eq, responder_is_empty_eq', bind_ok_s]
   cases hemp : r.requests.isEmpty with
   | true =>
     have hnil : r.requests = [] := List.isEmpty_iff.mp hemp
-    simp [obsGen, obsModel, toGenResponder, hnil]
+    simp [hnil, Res.map, Res.Sim, curAfter]
   | false =>
     simp only [Bool.false_eq_true, if_false, map_bind', mcfg_eq E hH]
     refine Sim.bind_map (q := fun p => (p.2, toGenTree r.ver p.1)) (compute_root_sim E.H hH r.ver r.tree) fun a => ?_
     refine Sim.bind_map (q := fun p => (toGen p.1, ({ signer := p.2, vers_wire_bytes := Version.supportedWire } : Gen.OnlineKey)))
-      (make_srep_sim E.S ⟨r.onl, Version.supportedWire⟩ rfl r.ver now a.2) fun b => ?_
-    refine loop_sim' ok { ver := r.ver, onl := b.2, cert := r.cert, requests := r.requests, tree := a.1 }
-      (decide (LOG ≥ 4)) b.1 _ ?hbody r.requests gs cur ev0 _ rfl _ (fun _ => rfl) _ (fun _ => rfl)
+      (make_srep_sim E.S ⟨r.onl, Version.supportedWire⟩ rfl r.ver (Gen.Sock.now sock) a.2) fun b => ?_
+    refine loop_sim' sock { r with tree := a.1, onl := b.2 } (decide (LOG ≥ 4)) b.1 _ ?hbody r.requests gs cur ev0 _ rfl _
+      (fun _ => rfl) _ (fun _ => rfl)
     intro idx nonce src gs cur out stats
     obtain ⟨t, root⟩ := a
     obtain ⟨srep, onl'⟩ := b
@@ -52,10 +59,24 @@ theorem send_responses_sim (E : Env) (hH : ∀ x, (E.H x).length = 64) (r : Resp
     obtain ⟨ver, onl, cert, reqs, tree⟩ := r
     cases ver <;>
       simp only [encode_eq, encode_framed_eq, unwrapR_ok, bind_ok_s, Gen.Sock.sendTo, wireOf, draw_snd] <;>
-      cases hok : ok src idx <;>
+      cases hok : sock.ok src (sock.n + idx) <;>
       by_cases hL : LOG ≥ 4 <;>
       by_cases hs : 4 ≤ nonce.length <;>
-      simp [hL, hs, Rs.slice, slice, stepState, toGenResponder, Res.Sim]
+      simp [hL, hs, Rs.slice, slice, stepState, toGenResponder, Res.Sim, Res.map, Nat.add_assoc]
+
+/-- The clock is read from the socket environment (`SystemTime::now()` = `sock.clock sock.n`, once, before the first
+    send) and the outcome of the k-th send of this call is `sock.ok dst (sock.n + k)`. -/
+theorem send_responses_sim (E : Env) (hH : ∀ x, (E.H x).length = 64) (r : Responder) (gs : List Grease) (cur : Grease)
+    (sock : Gen.Sock) (LOG : Nat) (ev0 : List Event) :
+    (Gen.Responder.send_responses E.S E.H LOG (toGenResponder r ⟨gs, cur⟩) sock ev0).map obsGen
+      ≃ᵣ (Responder.sendResponsesF (fun a k => sock.ok a (sock.n + k)) E r (decide (LOG ≥ 4))
+            ((sock.clock sock.n).secs, (sock.clock sock.n).nanos) gs).map
+            (obsModel sock r.requests.length gs ev0) := by
+  have h := Sim.map_congr (send_responses_exact E hH r gs cur sock LOG ev0) obsGen
+  refine Res.Sim.trans h (Res.Sim.of_eq ?_)
+  rw [map_map]
+  cases Responder.sendResponsesF (fun a k => sock.ok a (sock.n + k)) E r (decide (LOG ≥ 4))
+      ((sock.clock sock.n).secs, (sock.clock sock.n).nanos) gs <;> rfl
 
 end Bridge
 end Rough
